@@ -399,6 +399,9 @@ def _send(T, tag, lazy):
                                   S.Or(a.self.killed, S.And(
                                       z3.Select(a.ghost.Sent, S.to_int(a.local.msg_number)),
                                       z3.Select(a.ghost.SentMsg, S.to_int(a.local.msg_number)) == a.msg))),
+                                 ("send returns normally only on a mailbox that is not force-killed: the sender of a force-killed mailbox is "
+                                  "stopped by MailboxKilled (carrying the reason), it does not carry on as if the message was merely lost",
+                                  S.Not(a.self.force_killed)),
                                  ("implicit numbering stays usable: every number sent lies below the send counter again",
                                   S.Implies(S.is_none(a.msg_number),
                                             z3.ForAll([_n], z3.Implies(z3.Select(a.ghost.Sent, _n), _n < a.self._n_sent))))],
@@ -820,6 +823,18 @@ def lock_discipline():
     return out
 
 
+def _close_loop_protected(try_):
+    """the ``m.close()`` calls of the regular-stop branch sit inside a try whose handler kills every mailbox of mbs_to_kill"""
+    for stmt in try_.orelse:
+        for t in _ast.walk(stmt):
+            if isinstance(t, _ast.Try) and any("m.close()" in _ast.unparse(b) for b in t.body):
+                for h in t.handlers:
+                    hs = _ast.unparse(h)
+                    if "for m in mbs_to_kill" in hs and "kill_from_exception(" in hs and _ast.unparse(h.type or _ast.Name("BaseException")) in ("Exception", "BaseException"):
+                        return True
+    return False
+
+
 def divide_outputs_wiring():
     """Shape of divide_outputs (its mailboxes are a dict of unknown size, so this part is structural, not semantic)."""
     tree, _ = load_module_ast(F)
@@ -840,6 +855,9 @@ def divide_outputs_wiring():
         ("the handler catches Exception", _ast.unparse(handler.type) == "Exception", ""),
         ("the exception is re-raised unless it is a MailboxKilled", "if not isinstance(e, MailboxKilled)" in h_src and "raise" in h_src, ""),
         ("a regular stop closes every output mailbox", "for m in mbs_to_kill" in else_src and "m.close()" in else_src, else_src[:80]),
+        ("a failure while CLOSING one output (it was killed - e.g. by its failing saver - while the divider waits in close) kills every "
+         "output too: the closing loop is covered by a handler that kills all of them (otherwise the other outputs are left neither closed "
+         "nor killed and their readers wait for the timeout)", _close_loop_protected(try_), else_src[:160]),
         ("a failed send is thrown back into the source", "source.throw(e)" in src, ""),
         ("lazy mode: the source is advanced only after the gate loop over all outputs", gate_for is not None and next_pos > 0
          and "if lazy" in gate_src and "_can_fetch" in gate_src and "wait_for(m._can_fetch" in gate_src
